@@ -121,6 +121,12 @@ MUTANTS = [
      "            M += Mterm\n            RHS += RHSterm",
      "            M += Mterm\n            RHSterm += RHS\n            RHS = RHSterm",
      ["C15"], "caught"),
+    # a builder that lazily refreshes its argument: the next builder call with the
+    # same visible inputs returns something else
+    ("gradient-applies-bcs-on-dirty-input", "pyfvtool/calculus.py",
+     "    # calculates the gradient of a variable\n    # the output is a face variable\n    if issubclass(type(phi.domain), Grid1D):\n        dx = 0.5*(phi.domain.cellsize._x[0:-1]+phi.domain.cellsize._x[1:])\n        return FaceVariable(phi.domain,\n                     (phi._value[1:]-phi._value[0:-1])/dx,",
+     "    # calculates the gradient of a variable\n    # the output is a face variable\n    if phi.BCs.modified or phi.value.modified:\n        phi.apply_BCs()\n    if issubclass(type(phi.domain), Grid1D):\n        dx = 0.5*(phi.domain.cellsize._x[0:-1]+phi.domain.cellsize._x[1:])\n        return FaceVariable(phi.domain,\n                     (phi._value[1:]-phi._value[0:-1])/dx,",
+     ["C15"], "caught"),
     ("gradient-fixedbc-overwrites-input-ghosts", "pyfvtool/calculus.py",
      "    faceGrad = gradientTerm(phi)\n    if issubclass(type(phi.domain), Grid1D):",
      "    if issubclass(type(phi.domain), Grid1D):\n        phi._value[0] = phi._value[1]\n    faceGrad = gradientTerm(phi)\n    if issubclass(type(phi.domain), Grid1D):",
@@ -202,10 +208,13 @@ MUTANTS = [
      "        self._value = TrackedArray(cellValuesWithBoundaries(self.value,\n                                                            self.BCs))\n        if self.BCsTerm_precalc:\n            self._BCsTerm = boundaryConditionsTerm(self.BCs)\n",
      "        if self.BCsTerm_precalc:\n            self._BCsTerm = boundaryConditionsTerm(self.BCs)\n        self._value = TrackedArray(cellValuesWithBoundaries(self.value,\n                                                            self.BCs))\n",
      ["C09", "C03"], "silent"),
-    ("SILENT-copy-refreshes-ghosts", C,
+    # a copy whose ghost layer is recomputed is not "equal" to an original whose
+    # ghost cells are not what its BCs dictate (plotprofile / means / gradient of
+    # the two differ): must be caught (was on the must-stay-silent list at first)
+    ("copy-refreshes-ghosts", C,
      "        return CellVariable(self.domain, np.copy(self._value),\n                            deepcopy(self.BCs))",
      "        c = CellVariable(self.domain, np.copy(self._value),\n                         deepcopy(self.BCs))\n        c.apply_BCs()\n        return c",
-     ["C09", "C14", "C15"], "silent"),
+     ["C14"], "caught"),
     ("SILENT-fresh-bcterm-each-solve", P,
      "    Mbc, RHSbc = phi._BCsTerm\n",
      "    from .boundary import boundaryConditionsTerm as _bct\n    Mbc, RHSbc = _bct(phi.BCs)\n", ["C09", "C04", "C15"], "silent"),
